@@ -93,6 +93,16 @@ void exec_nest(const J& plan) {
   if (used_max > (size_t)(1 << 20) + (size_t)32768 * L) {   // only a sanity bound: the property asks for proportionality, not for a constant
  fail("C19", "stack-use-not-proportional-to-L", fmt("decode/describe/size/serialize/copy/release of a depth-L tree used %zu bytes of native stack with L=%u", used_max, L)); return; }
   stat_max("max_stack_used_at_depth_L", used_max);
+  // proportional to L: the same kinds nested L/2 deep must need about half of it (a per-level cost that itself grows with depth shows here)
+  if (L >= 64) {
+    std::vector<uint8_t> half; unsigned hl = 0; nest_chain(kinds, cal_depth / 2, leaf_kind, half, &hl);
+    size_t used_half = 0, keep = used_max; used_max = 0;
+    LoadOutcome ch = checked_load(half.data(), half.size(), co, nullptr);
+    used_half = used_max; used_max = keep;
+    if (failed() || g_run.foreign_seen) return;
+    if (ch.item && (double)used_max > 2.5 * (double)used_half + (double)(256 << 10)) { fail("C19", "stack-use-not-proportional-to-L", fmt("the pipeline used %zu bytes of native stack at nesting %u but %zu bytes at nesting %u: more than proportional", used_max, cal_levels, used_half, hl)); return; }
+    stat_max("max_stack_used_at_depth_L_half", used_half);
+  }
   // --- the run proper: bounded stack = twice what the deepest acceptable tree needed (+ slack for libc)
   size_t budget = 2 * used_max + ((size_t)64 << 10);
   LoadOpts o; o.L = L; o.deep_post = true;
